@@ -62,10 +62,47 @@ class BaseRun:
                 coords.append(self.real(f"t{tag}"))
             else:
                 coords.append(self.real(f"tau{tag}", "nonneg" if tau_nonneg else "real"))
-        return lanes.build(self.classes, system, coords, momentum)
+        return self._track(lanes.build(self.classes, system, coords, momentum))
 
     def build(self, system, coords, momentum=False):
-        return lanes.build(self.classes, system, coords, momentum)
+        return self._track(lanes.build(self.classes, system, coords, momentum))
+
+    # ---- frame condition (C16): every operand handed out is snapshotted ----------------------
+    def _track(self, v):
+        if not hasattr(self, "operands"):
+            self.operands = []
+        self.operands.append((v, snapshot(v)))
+        # keep the stored coordinate objects alive so that their ids cannot be reused
+        if not hasattr(self, "_alive"):
+            self._alive = []
+        self._alive.append([getattr(v, g) for g in ("azimuthal", "longitudinal", "temporal") if hasattr(v, g)])
+        return v
+
+    def untrack(self, v):
+        """the vector is about to be modified on purpose (assignment / in-place operator)"""
+        self.operands = [(w, s) for (w, s) in getattr(self, "operands", []) if w is not v]
+
+    def frame_violations(self):
+        out = []
+        for v, snap in getattr(self, "operands", []):
+            now = snapshot(v)
+            if now != snap:
+                out.append(f"{snap[0]} operand changed: {snap} -> {now}")
+        return out
+
+
+def snapshot(v):
+    """class, coordinate classes and the identities of every stored coordinate object"""
+    parts = [type(v).__name__]
+    for grp in ("azimuthal", "longitudinal", "temporal"):
+        if hasattr(v, grp):
+            g = getattr(v, grp)
+            parts.append((grp, type(g).__name__, id(g), tuple(id(e) for e in g.elements)))
+    return tuple(parts)
+
+
+class _Unused:
+    pass
 
 
 class SymRun(BaseRun):
@@ -390,6 +427,26 @@ def iff(p, q):
 
 def implies(p, q):
     if _is_sym(p, q):
+        return Goal(z3.Implies(_b(p), _b(q)), kind="implies")
+    return CGoal((not _cb(p)) or _cb(q), f"{_cb(p)} => {_cb(q)}")
+
+
+def _flatten_and(t):
+    if z3.is_and(t):
+        out = []
+        for c in t.children():
+            out += _flatten_and(c)
+        return out
+    return [t]
+
+
+def implies_componentwise(p, q):
+    """p => q for two conjunctions built the same way: proved conjunct by conjunct (stronger)"""
+    if _is_sym(p, q):
+        a, b = _flatten_and(_b(p)), _flatten_and(_b(q))
+        if len(a) == len(b) and len(a) > 1:
+            parts = [Goal(z3.Implies(x, y), kind="implies") for x, y in zip(a, b)]
+            return Goal(z3.And(*[g.form for g in parts]), parts=parts, kind="and")
         return Goal(z3.Implies(_b(p), _b(q)), kind="implies")
     return CGoal((not _cb(p)) or _cb(q), f"{_cb(p)} => {_cb(q)}")
 
